@@ -26,40 +26,40 @@ func schedC12(c *ctx) map[string]interface{} {
 
 func schedC01(c *ctx) map[string]interface{} {
 	a := runSched(c, []famCount{{"mix", c.scale(2000)}, {"coe", c.scale(600)}, {"failfast", c.scale(600)}, {"drain", c.scale(200)}}, false)
-	return a.coverage(ruleS+"some started job has >= 2 distinct dependencies, or the loop saw an enqueue whose dependency had already finished")
+	return a.coverage(ruleS + "some started job has >= 2 distinct dependencies, or the loop saw an enqueue whose dependency had already finished")
 }
 
 func schedC03(c *ctx) map[string]interface{} {
 	a := runSched(c, []famCount{{"wide", c.scale(96)}, {"barrier", c.scale(600)}, {"mix", c.scale(1200)}, {"saturate", c.scale(300)}}, false)
-	return a.coverage(ruleS+"at least two bodies were in flight at once, or a goroutine census was taken while N bodies were held on the gate (wide: up to 10^5 jobs; barrier: N-party barrier after 0/1/N/3N Goexit jobs)")
+	return a.coverage(ruleS + "at least two bodies were in flight at once, or a goroutine census was taken while N bodies were held on the gate (wide: up to 10^5 jobs; barrier: N-party barrier after 0/1/N/3N Goexit jobs)")
 }
 
 func schedC05(c *ctx) map[string]interface{} {
 	a := runSched(c, []famCount{{"mix", c.scale(1500)}, {"drain", c.scale(1200)}, {"failfast", c.scale(500)}, {"coe", c.scale(500)}, {"cancel", c.scale(500)}}, false)
-	return a.coverage(ruleS+"at least two jobs (every scenario exercises Enqueue*, Wait and the exit paths)")
+	return a.coverage(ruleS + "at least two jobs (every scenario exercises Enqueue*, Wait and the exit paths)")
 }
 
 func schedC06(c *ctx) map[string]interface{} {
 	a := runSched(c, []famCount{{"drain", c.scale(1500)}, {"failfast", c.scale(900)}, {"mix", c.scale(900)}, {"cancel", c.scale(500)}, {"coe", c.scale(400)}, {"prompt", c.scale(300)}}, false)
-	return a.coverage(ruleS+"at least two jobs; after every scenario the process must return to its goroutine baseline (leaks are diagnosed from three stable dumps)")
+	return a.coverage(ruleS + "at least two jobs; after every scenario the process must return to its goroutine baseline (leaks are diagnosed from three stable dumps)")
 }
 
 func schedC07(c *ctx) map[string]interface{} {
 	a := runSched(c, []famCount{{"failfast", c.scale(2500)}, {"drain", c.scale(500)}, {"cancel", c.scale(500)}, {"mix", c.scale(500)}}, false)
-	return a.coverage(ruleS+"fail-fast mode and at least one job body actually failed")
+	return a.coverage(ruleS + "fail-fast mode and at least one job body actually failed")
 }
 
 func schedC08(c *ctx) map[string]interface{} {
 	a := runSched(c, []famCount{{"coe", c.scale(3000)}, {"mix", c.scale(800)}, {"cancel", c.scale(400)}}, false)
-	return a.coverage(ruleS+"ContinueOnError mode and at least one job body actually failed")
+	return a.coverage(ruleS + "ContinueOnError mode and at least one job body actually failed")
 }
 
 func schedC09(c *ctx) map[string]interface{} {
 	a := runSched(c, []famCount{{"cancel", c.scale(2500)}, {"prompt", c.scale(600)}, {"saturate", c.scale(600)}, {"mix", c.scale(500)}}, false)
-	return a.coverage(ruleS+"the context was cancelled and either some job was in the must-not-start set (depends on the cancelling job / submitted after cancel() returned / all workers held until after cancel()) or at least two jobs were submitted")
+	return a.coverage(ruleS + "the context was cancelled and either some job was in the must-not-start set (depends on the cancelling job / submitted after cancel() returned / all workers held until after cancel()) or at least two jobs were submitted")
 }
 
 func schedC19(c *ctx) map[string]interface{} {
 	a := runSched(c, []famCount{{"state", c.scale(2500)}, {"mix", c.scale(600)}, {"drain", c.scale(300)}}, false)
-	return a.coverage(ruleS+"at least one state report was emitted (StateFlushFrequency = 1ns) and checked")
+	return a.coverage(ruleS + "at least one state report was emitted (StateFlushFrequency = 1ns) and checked")
 }
